@@ -1,16 +1,296 @@
-(* C02 -- gradient, Hessian and BHHH returned with a value are its true derivatives. *)
-From Coq Require Import Reals List String.
+(* C02 -- Gradient, Hessian and BHHH returned with a value are its true derivatives.
+
+   Property theorems only; each is closed by [exact] of a lemma proved in Proofs/DerivP.v
+   (symbolic derivative D of Model/Deriv.v, Coquelicot) or Proofs/PackP.v (packaging code,
+   about the definitions of Gen/Pack.v regenerated from the Python source on every run).
+
+   The engine's derivative code is external (C++): the stream deriv_engine of ./check C02
+   compares every entry it returns with a proved enclosure (T01f) of evalX (D b e) and
+   evalX (D b' (D b e)).  What is proved here is that these trees ARE the derivatives. *)
+From Coq Require Import Reals ZArith List String Bool.
 From Coquelicot Require Import Coquelicot.
-From BV Require Import Model.Expr Model.EvalX Model.Deriv Proofs.DerivP.
+From BV Require Import Model.Expr Model.EvalX Model.Deriv Model.IdMgr Model.Pack Gen.Pack
+  Proofs.DerivP Proofs.PackP.
+Import ListNotations.
 Open Scope R_scope.
 
-(* T02a.  For every tree of the smooth fragment, every environment in the open domain (dom) and
-   every parameter / variable w of the list ws: the value of the tree [D w e] is the partial
-   derivative of the value of e with respect to w. *)
-Theorem T02a_D_correct : forall (Phi : R -> R),
-  (forall x, is_derive Phi x (D2R inv_sqrt_2pi * exp (- (x * x / 2)))) ->
+(* the hypothesis on the normal CDF (external): differentiable, with the density the derivative
+   trees use -- c * exp(-x^2/2), c the double nearest to 1/sqrt(2 pi) *)
+Definition Phi_ok (Phi : R -> R) : Prop :=
+  forall x, is_derive Phi x (D2R inv_sqrt_2pi * exp (- (x * x / 2))).
+
+(* non-vacuity: such a function exists (the integral of the density) *)
+Example Phi_ok_inhabited : exists Phi, Phi_ok Phi.
+Proof. exact Phi_exists. Qed.
+
+(* ------------------------------------------------------------------ T02a *)
+(* For every tree of the smooth fragment, every environment in the open domain (dom) and every
+   parameter / variable w of the list ws: the value of the tree [D w e] is the partial derivative
+   of the value of e with respect to w, and it is a real number. *)
+Theorem T02a_D_correct : forall Phi, Phi_ok Phi ->
   forall (ws : list wrt) (en : env) (w : wrt) (x0 : R) (e : expr),
     In w ws -> wrt_val en w = Some x0 -> dom Phi ws en e ->
     is_derive (fun x => valR (evalX Phi e (upd en w x))) x0 (valR (evalX Phi (D w e) en)).
 Proof. exact D_correct_at. Qed.
 Print Assumptions T02a_D_correct.
+
+Theorem T02a_D_value : forall Phi, Phi_ok Phi ->
+  forall (ws : list wrt) (en : env) (w : wrt) (x0 : R) (e : expr),
+    In w ws -> wrt_val en w = Some x0 -> dom Phi ws en e -> exists d, evalX Phi (D w e) en = XR d.
+Proof. exact D_value_at. Qed.
+Print Assumptions T02a_D_value.
+
+(* the derivative tree is again inside the fragment and the open domain: D can be iterated *)
+Theorem T02a_dom_D : forall Phi, Phi_ok Phi ->
+  forall (ws : list wrt) (en : env) (w : wrt) (x0 : R) (e : expr),
+    In w ws -> wrt_val en w = Some x0 -> dom Phi ws en e -> dom Phi ws en (D w e).
+Proof. exact dom_D_at. Qed.
+Print Assumptions T02a_dom_D.
+
+(* the domain is open: it holds on a neighbourhood of the point (so "interior point" is what dom says) *)
+Theorem T02a_dom_open : forall Phi, Phi_ok Phi ->
+  forall (ws : list wrt) (w : wrt), In w ws -> forall (en : env) (x0 : R) (e : expr),
+    dom Phi ws (upd en w x0) e -> locally x0 (fun x => dom Phi ws (upd en w x) e).
+Proof. exact dom_open. Qed.
+Print Assumptions T02a_dom_open.
+
+(* non-vacuity of T02a: the formula  b * Phi(b) + exp(b) / (1 + b*b) + log(c + x)  at b = 1/2, c = 2,
+   x = 1 is in the domain with respect to [b; c] *)
+Definition demo_tree : expr :=
+  EBin Plus (EBin Plus (EBin Times (EBeta "b" false) (EUn NormalCdf (EBeta "b" false)))
+                       (EBin Divide (EUn Exp (EBeta "b" false))
+                                    (EBin Plus (ENumZ 1) (EBin Times (EBeta "b" false) (EBeta "b" false)))))
+            (EUn Log (EBin Plus (EBeta "c" false) (EVar "x"))).
+Definition demo_env : env :=
+  mkEnv (fun n => if String.eqb n "b" then Some (1/2) else if String.eqb n "c" then Some 2 else None)
+        (fun n => if String.eqb n "x" then Some 1 else None)
+        (fun _ => None) (fun _ => None) [] [].
+
+Example T02a_hypotheses_hold : forall Phi,
+  In (WBeta "b") [WBeta "b"; WBeta "c"] /\ wrt_val demo_env (WBeta "b") = Some (1/2) /\
+  dom Phi [WBeta "b"; WBeta "c"] demo_env demo_tree.
+Proof.
+  intros Phi. split; [left; reflexivity|]. split; [reflexivity|].
+  unfold demo_tree.
+  assert (Hb : dom Phi [WBeta "b"; WBeta "c"] demo_env (EBeta "b" false)) by (apply (dom_beta _ _ _ _ _ (1/2)); reflexivity).
+  assert (Hc : dom Phi [WBeta "b"; WBeta "c"] demo_env (EBeta "c" false)) by (apply (dom_beta _ _ _ _ _ 2); reflexivity).
+  assert (Hx : dom Phi [WBeta "b"; WBeta "c"] demo_env (EVar "x")) by (apply (dom_var _ _ _ _ 1); reflexivity).
+  assert (H1 : dom Phi [WBeta "b"; WBeta "c"] demo_env (ENumZ 1))
+    by (apply (dom_pfree _ _ _ _ (IZR 1)); [reflexivity | apply ev_numZ]).
+  apply dom_plus; [apply dom_plus|].
+  - apply dom_times; [exact Hb | apply dom_normalcdf; exact Hb].
+  - apply (dom_divide _ _ _ _ _ (1 + 1/2 * (1/2))).
+    + apply dom_exp; exact Hb.
+    + apply dom_plus; [exact H1 | apply dom_times; exact Hb].
+    + unfold EBin, ENumZ, EBeta. rewrite !ev_bin, ev_numZ. reflexivity.
+    + apply Rgt_not_eq. apply Rlt_gt. apply Rplus_lt_0_compat; [exact Rlt_0_1|].
+      apply Rmult_lt_0_compat; apply Rdiv_lt_0_compat; (exact Rlt_0_1 || exact Rlt_0_2).
+  - apply (dom_log _ _ _ _ (2 + 1)).
+    + apply dom_plus; [exact Hc | exact Hx].
+    + reflexivity.
+    + apply Rplus_lt_0_compat; [exact Rlt_0_2 | exact Rlt_0_1].
+Qed.
+
+(* ------------------------------------------------------------------ T02b *)
+(* The (w, w') tree of the Hessian is the derivative with respect to w' of the w-th gradient tree ... *)
+Theorem T02b_hess_correct : forall Phi, Phi_ok Phi ->
+  forall (ws : list wrt) (en : env) (w w' : wrt) (x0 x0' : R) (e : expr),
+    In w ws -> In w' ws -> wrt_val en w = Some x0 -> wrt_val en w' = Some x0' -> dom Phi ws en e ->
+    is_derive (fun x => valR (evalX Phi (D w e) (upd en w' x))) x0' (valR (evalX Phi (D w' (D w e)) en)).
+Proof. exact hess_correct. Qed.
+Print Assumptions T02b_hess_correct.
+
+(* ... hence the second partial derivative of the value: mixed entries (w <> w') *)
+Theorem T02b_hess_is_second_derivative_mixed : forall Phi, Phi_ok Phi ->
+  forall (ws : list wrt) (en : env) (w w' : wrt) (x0 x0' : R) (e : expr),
+    In w ws -> In w' ws -> wrt_eqb w w' = false ->
+    wrt_val en w = Some x0 -> wrt_val en w' = Some x0' -> dom Phi ws en e ->
+    is_derive (fun x' => Derive (fun x => valR (evalX Phi e (upd (upd en w' x') w x))) x0) x0'
+              (valR (evalX Phi (D w' (D w e)) en)).
+Proof. exact hess_is_second_derivative_mixed. Qed.
+Print Assumptions T02b_hess_is_second_derivative_mixed.
+
+(* ... and diagonal entries *)
+Theorem T02b_hess_is_second_derivative_diag : forall Phi, Phi_ok Phi ->
+  forall (ws : list wrt) (en : env) (w : wrt) (x0 : R) (e : expr),
+    In w ws -> wrt_val en w = Some x0 -> dom Phi ws en e ->
+    is_derive (fun x' => Derive (fun x => valR (evalX Phi e (upd en w x))) x') x0
+              (valR (evalX Phi (D w (D w e)) en)).
+Proof. exact hess_is_second_derivative_diag. Qed.
+Print Assumptions T02b_hess_is_second_derivative_diag.
+
+(* ------------------------------------------------------------------ T02d *)
+(* Entry i of the gradient list (resp. (i, j) of the Hessian) is the derivative with respect to the
+   i-th (and j-th) name of the list of names ... *)
+Theorem T02d_grad_entry : forall names e i, (i < List.length names)%nat ->
+  nth i (grad names e) zero = D (WBeta (nth i names EmptyString)) e.
+Proof. exact grad_nth. Qed.
+Print Assumptions T02d_grad_entry.
+
+Theorem T02d_hess_entry : forall names e i j, (i < List.length names)%nat -> (j < List.length names)%nat ->
+  nth j (nth i (hess names e) []) zero =
+  D (WBeta (nth j names EmptyString)) (D (WBeta (nth i names EmptyString)) e).
+Proof. exact hess_nth. Qed.
+Print Assumptions T02d_hess_entry.
+
+(* ... the list the library uses is the sorted list of the free-parameter names, the index it
+   attaches to a name is its rank (expressions_names_indices, generated from idmanager.py), the
+   literal ids handed to the engine by calculate_likelihood_and_derivatives are 0 .. n-1 in that
+   order ... *)
+Theorem T02d_names_sorted_indices_ranks : forall keys,
+  expressions_names_indices keys = (map swap_iv (enumerate (sorted_names keys)), sorted_names keys).
+Proof. exact names_indices_spec. Qed.
+Print Assumptions T02d_names_sorted_indices_ranks.
+
+Theorem T02d_index_is_rank : forall keys b,
+  dict_get (fst (expressions_names_indices keys)) b = index_of b (snd (expressions_names_indices keys)).
+Proof. exact index_is_rank. Qed.
+Print Assumptions T02d_index_is_rank.
+
+Theorem T02d_literal_ids : forall keys,
+  clad_literal_ids (fst (expressions_names_indices keys)) = map Z.of_nat (seq 0 (List.length (sorted_names keys))).
+Proof. exact literal_ids_spec. Qed.
+Print Assumptions T02d_literal_ids.
+
+(* ... and a named output attaches entry i of the array to the i-th sorted name (convert_to_dict,
+   generated from function_output.py): named[b] = array[rank b] *)
+Theorem T02d_named_entry : forall (A : Type) (d : A) keys (arr : list A) i,
+  List.length arr = List.length (sorted_names keys) -> (i < List.length (sorted_names keys))%nat ->
+  exists dict, convert_to_dict d arr (fst (expressions_names_indices keys)) = Some dict /\
+               dict_get dict (nth i (sorted_names keys) EmptyString) = Some (nth i arr d) /\
+               map fst dict = sorted_names keys.
+Proof. exact @named_entry. Qed.
+Print Assumptions T02d_named_entry.
+
+Theorem T02d_named_gradient : forall keys (g : list R),
+  List.length g = List.length (sorted_names keys) ->
+  named_gradient (Some g) (fst (expressions_names_indices keys)) = Some (Some (combine (sorted_names keys) g)).
+Proof. exact named_gradient_spec. Qed.
+Print Assumptions T02d_named_gradient.
+
+Theorem T02d_named_hessian : forall keys (h : list (list R)),
+  List.length h = List.length (sorted_names keys) ->
+  Forall (fun row => List.length row = List.length (sorted_names keys)) h ->
+  named_hessian (Some h) (fst (expressions_names_indices keys))
+  = Some (Some (combine (sorted_names keys) (map (fun row => Some (combine (sorted_names keys) row)) h))).
+Proof. exact named_hessian_spec. Qed.
+Print Assumptions T02d_named_hessian.
+
+Example T02d_demo :
+  expressions_names_indices ["b_2"; "B_z"; "a9"; "B_10"]%string
+  = ([("B_10", 0); ("B_z", 1); ("a9", 2); ("b_2", 3)]%string%Z, ["B_10"; "B_z"; "a9"; "b_2"]%string)
+  /\ convert_to_dict 0%Z [10; 20; 30; 40]%Z (fst (expressions_names_indices ["b_2"; "B_z"; "a9"; "B_10"]%string))
+     = Some [("B_10", 10); ("B_z", 20); ("a9", 30); ("b_2", 40)]%string%Z
+  /\ convert_to_dict 0%Z [10; 20]%Z [("a", 0); ("b", 2)]%string%Z = None.
+Proof. repeat split; vm_compute; reflexivity. Qed.
+
+(* ------------------------------------------------------------------ selection of the outputs *)
+(* calculate_function_and_derivatives (generated from calculator.py): aggregated mode returns the
+   first entry of each array and None for what was not asked; per-observation mode returns the
+   arrays; without database exactly one entry is expected *)
+Theorem T02_select_aggregated : forall (F G H : Type) (dF : F) (dG : G) (dH : H) cg ch cb db f g h b,
+  select dF dG dH cg ch cb true db f g h b
+  = RAgg (nth 0 f dF, asked cg (nth 0 g dG), asked ch (nth 0 h dH), asked cb (nth 0 b dH)).
+Proof. exact @select_agg. Qed.
+Print Assumptions T02_select_aggregated.
+
+Theorem T02_select_per_observation : forall (F G H : Type) (dF : F) (dG : G) (dH : H) cg ch cb f g h b,
+  select dF dG dH cg ch cb false (Some tt) f g h b = RDis (f, asked cg g, asked ch h, asked cb b).
+Proof. exact @select_dis. Qed.
+Print Assumptions T02_select_per_observation.
+
+Theorem T02_select_no_database_one : forall (F G H : Type) (dF : F) (dG : G) (dH : H) cg ch cb f0 g h b,
+  select dF dG dH cg ch cb false None [f0] g h b
+  = RAgg (f0, asked cg (nth 0 g dG), asked ch (nth 0 h dH), asked cb (nth 0 b dH)).
+Proof. exact @select_one. Qed.
+Print Assumptions T02_select_no_database_one.
+
+Theorem T02_select_no_database_many : forall (F G H : Type) (dF : F) (dG : G) (dH : H) cg ch cb f g h b,
+  List.length f <> 1%nat -> select dF dG dH cg ch cb false None f g h b = RErr.
+Proof. exact @select_many. Qed.
+Print Assumptions T02_select_no_database_many.
+
+(* the only refused request: Hessian or BHHH without the gradient; the flags asked reach the engine *)
+Theorem T02_refusal : forall g h b, gvd_refuses g h b = true <-> ((h = true \/ b = true) /\ g = false).
+Proof. exact gvd_refuses_spec. Qed.
+Print Assumptions T02_refusal.
+
+Theorem T02_flags_passed : forall g h b a,
+  (let '(g1, h1, b1, a1) := gvd_flags g h b a in engine_flags g1 h1 b1 a1) = (g, h, b, a).
+Proof. exact flags_passed. Qed.
+Print Assumptions T02_flags_passed.
+
+(* ------------------------------------------------------------------ T02e *)
+(* Aggregation: the sum over the observations of the per-observation derivatives is the derivative
+   of the sum over the observations of the values (gradient and Hessian) ... *)
+Theorem T02e_aggregate_gradient : forall Phi, Phi_ok Phi ->
+  forall ws w x0 e (rows : list env), In w ws ->
+    (forall r, In r rows -> wrt_val r w = Some x0 /\ dom Phi ws r e) ->
+    is_derive (fun x => rsum (map (fun r => valR (evalX Phi e (upd r w x))) rows)) x0
+              (rsum (map (fun r => valR (evalX Phi (D w e) r)) rows)).
+Proof. exact aggregate_gradient. Qed.
+Print Assumptions T02e_aggregate_gradient.
+
+Theorem T02e_aggregate_hessian : forall Phi, Phi_ok Phi ->
+  forall ws w w' x0 x0' e (rows : list env), In w ws -> In w' ws ->
+    (forall r, In r rows -> wrt_val r w = Some x0 /\ wrt_val r w' = Some x0' /\ dom Phi ws r e) ->
+    is_derive (fun x => rsum (map (fun r => valR (evalX Phi (D w e) (upd r w' x))) rows)) x0'
+              (rsum (map (fun r => valR (evalX Phi (D w' (D w e)) r)) rows)).
+Proof. exact aggregate_hessian. Qed.
+Print Assumptions T02e_aggregate_hessian.
+
+(* ... and entry-wise: an entry of a sum of vectors / matrices is the sum of the entries *)
+Theorem T02e_vsum_entry : forall k l i,
+  Forall (fun v => List.length v = k) l -> ventry (vsum k l) i = rsum (map (fun v => ventry v i) l).
+Proof. exact vsum_entry. Qed.
+Print Assumptions T02e_vsum_entry.
+
+Theorem T02e_msum_entry : forall k l i j,
+  Forall (square k) l -> mentry (msum k l) i j = rsum (map (fun m => mentry m i j) l).
+Proof. exact msum_entry. Qed.
+Print Assumptions T02e_msum_entry.
+
+(* ------------------------------------------------------------------ T02f *)
+(* BHHH = sum over the observations of the outer products of the gradients: entry (i, j) is the sum
+   of g_r[i] * g_r[j]; it is symmetric *)
+Theorem T02f_bhhh_entry : forall k gs i j,
+  Forall (fun g => List.length g = k) gs ->
+  mentry (bhhh k gs) i j = rsum (map (fun g => ventry g i * ventry g j) gs).
+Proof. exact bhhh_entry. Qed.
+Print Assumptions T02f_bhhh_entry.
+
+Theorem T02f_bhhh_symmetric : forall k gs i j,
+  Forall (fun g => List.length g = k) gs -> mentry (bhhh k gs) i j = mentry (bhhh k gs) j i.
+Proof. exact bhhh_symmetric. Qed.
+Print Assumptions T02f_bhhh_symmetric.
+
+Example T02f_demo : bhhh 2 [[1; 2]; [3; 4]] = [[1 * 1 + (3 * 3 + 0); 1 * 2 + (3 * 4 + 0)]; [2 * 1 + (4 * 3 + 0); 2 * 2 + (4 * 4 + 0)]].
+Proof. reflexivity. Qed.
+
+(* ------------------------------------------------------------------ T02g *)
+(* Scaling (generated from biogeme.py): all four outputs are divided by the sample size, entry by
+   entry; a zero sample size is refused; division by N commutes with differentiation *)
+Theorem T02g_scaled_entries : forall n f g h bh f' g' h' bh',
+  clad_scale true n f g h bh = Some (f', g', h', bh') ->
+  f' = f / IZR n /\ (forall i, ventry g' i = ventry g i / IZR n) /\
+  (forall i j, mentry h' i j = mentry h i j / IZR n) /\ (forall i j, mentry bh' i j = mentry bh i j / IZR n).
+Proof. exact scaled_entries. Qed.
+Print Assumptions T02g_scaled_entries.
+
+Theorem T02g_unscaled : forall n f g h bh, (n <> 0)%Z ->
+  clad_scale true n f g h bh = Some (f / IZR n, vdiv g (IZR n), mdiv h (IZR n), mdiv bh (IZR n)) /\
+  clad_scale false n f g h bh = Some (f, g, h, bh).
+Proof. exact clad_scale_spec. Qed.
+Print Assumptions T02g_unscaled.
+
+Theorem T02g_scaling_linear : forall (f : R -> R) (x0 d N : R),
+  is_derive f x0 d -> is_derive (fun x => f x / N) x0 (d / N).
+Proof. exact scaling_linear. Qed.
+Print Assumptions T02g_scaling_linear.
+
+(* ------------------------------------------------------------------ T02c (partial) *)
+(* Symmetry of the Hessian of evalX: NOT proved for the trees D w' (D w e) vs D w (D w' e) (it is
+   Schwarz' theorem on the C2 fragment; a two-variable version of dom_open and of the continuity of
+   the second derivatives is missing).  What is proved: BHHH is symmetric (T02f); the symmetry of the
+   Hessian returned by the engine is checked entry by entry by the stream deriv_engine, together with
+   its entries (i, j), i <= j, against the enclosures of D b_j (D b_i e). *)
